@@ -63,6 +63,8 @@ enum Stop {
     Err(Kinds),
     Unspec(String),
     OutOfSteps,
+    /// the line was cut after the configured number of completed assignments (session model)
+    Cut,
 }
 
 enum Flow {
@@ -274,9 +276,14 @@ impl Static {
 }
 
 pub fn static_check(prog: &[Stmt]) -> StaticInfo {
+    static_check_with(prog, &[])
+}
+
+/// static phase with globals that already exist (retained sessions)
+pub fn static_check_with(prog: &[Stmt], globals: &[String]) -> StaticInfo {
     let mut s = Static {
         ctxs: vec![SCtx {
-            scopes: vec![vec![]],
+            scopes: vec![globals.to_vec()],
             loop_depth: 0,
             is_global: true,
         }],
@@ -306,6 +313,10 @@ pub struct Interp {
     tags: Vec<&'static str>,
     max_depth: usize,
     depth_limit: usize,
+    /// completed assignments (declarations, assignments, element stores) so far in this line
+    pub assignments: u64,
+    /// stop with `Cut` before the assignment that would exceed this number
+    pub assignment_limit: Option<u64>,
 }
 
 pub fn render_print(v: &RV) -> R<String> {
@@ -425,7 +436,21 @@ impl Interp {
             tags: vec![],
             max_depth: 0,
             depth_limit: 200,
+            assignments: 0,
+            assignment_limit: None,
         }
+    }
+
+    /// called immediately before an assignment takes effect
+    fn before_assign(&mut self) -> R<()> {
+        if let Some(l) = self.assignment_limit {
+            if self.assignments >= l {
+                return Err(Stop::Cut);
+            }
+        }
+        self.assignments += 1;
+        self.effects += 1;
+        Ok(())
     }
 
     fn tick(&mut self) -> R<()> {
@@ -541,7 +566,7 @@ impl Interp {
                         Flow::Normal(v) => v,
                         other => return Ok(other),
                     };
-                    self.effects += 1;
+                    self.before_assign()?;
                     let mut bm = bref.borrow_mut();
                     bm.val = v;
                     bm.init = true;
@@ -652,6 +677,9 @@ impl Interp {
                             if let Err(Stop::OutOfSteps) = r {
                                 return Err(Stop::OutOfSteps);
                             }
+                            if let Err(Stop::Cut) = r {
+                                return Err(Stop::Cut);
+                            }
                             if !pure_bool {
                                 return unspec("4.3(5): right operand of && / || with effects, failure or non-bool value while the left operand decides");
                             }
@@ -714,7 +742,7 @@ impl Interp {
                     globals,
                 }));
                 if let Some(b) = bref {
-                    self.effects += 1;
+                    self.before_assign()?;
                     let mut bm = b.borrow_mut();
                     bm.val = f.clone();
                     bm.init = true;
@@ -731,7 +759,7 @@ impl Interp {
                     if !b.borrow().alive {
                         return unspec("4.3(4): assignment to a block variable that has gone out of scope");
                     }
-                    self.effects += 1;
+                    self.before_assign()?;
                     let mut bm = b.borrow_mut();
                     // assigning to a variable inside its own initialiser
                     if !bm.init {
@@ -961,7 +989,7 @@ impl Interp {
                 let len = a.borrow().len();
                 match Self::norm_index(idx, len) {
                     Some(k) => {
-                        self.effects += 1;
+                        self.before_assign()?;
                         a.borrow_mut()[k] = v;
                         Ok(())
                     }
@@ -1004,7 +1032,7 @@ impl Interp {
                 if Rc::strong_count(s) > 2 {
                     return unspec("4.3(7): mutation of a string reachable under more than one name");
                 }
-                self.effects += 1;
+                self.before_assign()?;
                 let mut out = String::new();
                 for (j, c) in chars.iter().enumerate() {
                     if j == pos {
@@ -1165,6 +1193,7 @@ impl Interp {
                 Err(Stop::Err(k)) => return (RefOutcome::Error(k), true),
                 Err(Stop::Unspec(s)) => return (RefOutcome::Unspecified(s), false),
                 Err(Stop::OutOfSteps) => return (RefOutcome::OutOfSteps, false),
+                Err(Stop::Cut) => return (RefOutcome::Unspecified("cut".to_string()), false),
             }
         }
         if matches!(last, RV::Indet) {
@@ -1178,6 +1207,11 @@ impl Interp {
 
     pub fn steps(&self) -> u64 {
         self.steps
+    }
+
+    /// names declared in the top-level scope so far, in order
+    pub fn global_names(&self) -> Vec<String> {
+        self.frames[0].scopes[0].borrow().iter().map(|(n, _)| n.clone()).collect()
     }
 
     /// current values of the named global variables (session model)
